@@ -370,6 +370,7 @@ type runner struct {
 	udp     bool
 	extra   []*bmc.V2SessionlessTransport
 	kept    map[string]ipmi.Command // command values reused across calls of one script (step option "keep")
+	v2opts  *bmc.V2SessionOpts      // one options value kept by the caller (step option "keepOpts")
 	fsr     *ipmi.FullSensorRecord  // one record value decoded into repeatedly (NewSensorReader option "sharedRecord")
 	pwBuf   []byte                  // credential buffers rewritten in place (script option "reuseCreds")
 	kgBuf   []byte
@@ -412,6 +413,13 @@ func (r *runner) invoke(ctx context.Context, s M, ret M) {
 		var err error
 		if api == "NewV2Session" {
 			opts := &bmc.V2SessionOpts{}
+			if s["keepOpts"] == true {
+				// the caller keeps one options value and only assigns the fields the step lists
+				if r.v2opts == nil {
+					r.v2opts = &bmc.V2SessionOpts{}
+				}
+				opts = r.v2opts
+			}
 			if e := populate(reflect.ValueOf(opts).Elem(), args); e != nil {
 				panic("harness: " + e.Error())
 			}
